@@ -5,7 +5,7 @@
 Require Extraction.
 Require Import ExtrOcamlBasic.
 From Coq Require Import List NArith ZArith.
-From SDB Require Import Base.Bytes Params Model.Codec.
+From SDB Require Import Base.Bytes Base.Assoc Params Model.Codec Model.Lock Model.Page.
 
 Extraction Blacklist List String Int.
 
@@ -17,4 +17,8 @@ Extraction "sdbmodel.ml"
   enc_int enc_f32 f_cmp f_is_nan
   pack64 unpack64 pack8 unpack8 pack6 unpack6 pack32 unpack32 fill_zero elim_zero
   btree_max_key_len
+  (* M3 lock manager *)
+  linit lstep
+  (* M2 slotted page *)
+  pinit pstep astep abs op_ok
   N.of_nat N.to_nat Z.of_N Z.to_N Z.compare N.compare.
